@@ -644,7 +644,7 @@ pub fn c07(tier: Tier) -> i32 {
 
 pub fn c28(tier: Tier) -> i32 {
     let rep = Report::new("C28", tier);
-    rep.rule("all enabled histories (writes, SetVector, Compact, CreateIndex, CloseOpen) up to the stated depth; then close, vacuum, open: vacuum must succeed, the dump (both traversal directions, properties, labels, index lookups, vector search) must be unchanged, a further transaction must commit and survive another reopen; non-trivial = history containing a Compact (a segment exists)");
+    rep.rule("all enabled histories (writes, SetVector, Compact, CreateIndex, CloseOpen) up to the stated depth; then close, vacuum, open: vacuum must succeed, the dump (both traversal directions, properties, labels, index lookups, vector search) must be unchanged, a further transaction must commit and survive another reopen; plus a vector volume family (30..200 vectors: the HNSW storage trees span several pages; vacuum with and without a preceding reopen; vector search unchanged, also after another reopen); non-trivial = history containing a Compact (a segment exists)");
     let nodes = vec![1u64, 2];
     let mut alphabet = sigma_write(&nodes, false);
     alphabet.push(Op::SetVector { e: 1, v: [1, 1] });
@@ -722,6 +722,69 @@ pub fn c28(tier: Tier) -> i32 {
         }
         out
     });
+    // vector volume family: enough vectors for the HNSW storage trees to grow past one page, with and without
+    // a reopen (fresh handle: catalog roots as loaded from disk) before the vacuum
+    {
+        let sizes: Vec<u32> = tier.pick(vec![60, 120], vec![30, 60, 90, 120, 200]);
+        let res: Vec<(u32, bool, Option<(String, String)>)> = sizes
+            .par_iter()
+            .flat_map_iter(|&n| [(n, false), (n, true)])
+            .map(|(n, reopen_first)| {
+                let mut h: Vec<Op> = vec![Op::CreateNodes { base: 3000, n }];
+                for chunk in (1..=n as u64).collect::<Vec<_>>().chunks(30) {
+                    h.push(Op::Tx(chunk.iter().map(|i| Op::SetVector { e: 3000 + i, v: [(i % 11) as i8, (i / 11) as i8] }).collect()));
+                }
+                let mut r = run_history(&h);
+                if let Some((i, e)) = &r.failed_at {
+                    return (n, reopen_first, Some((format!("volume:step_failed:{}", h[*i].kind()), e.clone())));
+                }
+                let model = r.model.clone();
+                let sut = r.sut.as_mut().unwrap();
+                let mut before = Dump::default();
+                vector_probe(sut, &mut before);
+                if reopen_first {
+                    if let Err(e) = sut.apply(&Op::CloseOpen, &model) {
+                        return (n, reopen_first, Some((format!("volume:reopen_failed:{}", err_class(&e)), e)));
+                    }
+                    let mut reopened = Dump::default();
+                    vector_probe(sut, &mut reopened);
+                    if before.vec != reopened.vec || !reopened.problems.is_empty() {
+                        return (n, reopen_first, Some(("volume:vector_search_changed_by_reopen".to_string(), format!("before {:?} / after close + open {:?} {:?}", before.vec.get("q=[1, 1],k=3"), reopened.vec.get("q=[1, 1],k=3"), reopened.problems))));
+                    }
+                }
+                if let Err(e) = sut.apply(&Op::Vacuum, &model) {
+                    return (n, reopen_first, Some((format!("volume:vacuum_failed:{}", err_class(&e)), e)));
+                }
+                let mut after = Dump::default();
+                vector_probe(sut, &mut after);
+                if before.vec != after.vec || before.problems != after.problems {
+                    return (n, reopen_first, Some(("volume:vector_search_changed_by_vacuum".to_string(), format!("before {:?} {:?} / after {:?} {:?}", before.vec.get("q=[1, 1],k=3"), before.problems, after.vec.get("q=[1, 1],k=3"), after.problems))));
+                }
+                // and once more after another reopen
+                if let Err(e) = sut.apply(&Op::DropOpen, &model) {
+                    return (n, reopen_first, Some((format!("volume:reopen_after_vacuum_failed:{}", err_class(&e)), e)));
+                }
+                let mut again = Dump::default();
+                vector_probe(sut, &mut again);
+                if before.vec != again.vec || !again.problems.is_empty() {
+                    return (n, reopen_first, Some(("volume:vector_search_changed_after_vacuum_and_reopen".to_string(), format!("{:?}", again.problems))));
+                }
+                (n, reopen_first, None)
+            })
+            .collect();
+        for (n, reopen_first, v) in res {
+            rep.add_states(1);
+            rep.add_traces(1);
+            rep.add_transitions(n as u64 / 30 + 4);
+            rep.add_nontrivial(1);
+            if let Some((class, detail)) = v {
+                rep.outcome(&class);
+                rep.violation(Violation { class, kinds: vec!["vector_volume".to_string(), format!("vectors={n}"), format!("reopen_before_vacuum={reopen_first}")], replay: json!({"engine":"seq","family":"vector_volume","vectors": n, "reopen_before_vacuum": reopen_first}), detail });
+            } else {
+                rep.outcome("volume:preserved");
+            }
+        }
+    }
     rep.finish()
 }
 
